@@ -1,3 +1,4 @@
 pub mod arrival;
 pub mod cost;
 pub mod supply;
+pub mod rta;
